@@ -33,12 +33,12 @@ theorem pa_precedence (hs : List Hint) (h : NoDupKinds hs) : Impl.select hs = Sp
   unfold NoDupKinds at h
   match hs, h with
   | [], _ => rfl
-  | [⟨ka, sa, pa⟩], _ =>
+  | [⟨ka, sa, pa, ea⟩], _ =>
     cases ka <;> cases pa <;> simp [Impl.select, Impl.step, Spec.select, HintKind.id]
-  | [⟨ka, sa, pa⟩, ⟨kb, sb, pb⟩], h =>
+  | [⟨ka, sa, pa, ea⟩, ⟨kb, sb, pb, eb⟩], h =>
     cases ka <;> cases kb <;> cases pa <;> cases pb <;>
       simp_all [Impl.select, Impl.step, Spec.select, HintKind.id]
-  | [⟨ka, sa, pa⟩, ⟨kb, sb, pb⟩, ⟨kc, sc, pc⟩], h =>
+  | [⟨ka, sa, pa, ea⟩, ⟨kb, sb, pb, eb⟩, ⟨kc, sc, pc, ec⟩], h =>
     cases ka <;> cases kb <;> cases kc <;> cases pa <;> cases pb <;> cases pc <;>
       simp_all [Impl.select, Impl.step, Spec.select, HintKind.id]
   | a :: b :: c :: d :: rest, h =>
@@ -78,10 +78,43 @@ theorem pa_order_independent (hs hs' : List Hint) (hp : hs.Perm hs') (h : NoDupK
 
 /-- the unrepaired loop depended on the order (defect fixed in /repo) -/
 theorem pa_v0_order_dependent :
-    Impl.select_v0 [⟨.info2, [1], none⟩, ⟨.pwSalt, [2], none⟩] ≠
-    Impl.select_v0 [⟨.pwSalt, [2], none⟩, ⟨.info2, [1], none⟩] := by decide
+    Impl.select_v0 [⟨.info2, [1], none, none⟩, ⟨.pwSalt, [2], none, none⟩] ≠
+    Impl.select_v0 [⟨.pwSalt, [2], none, none⟩, ⟨.info2, [1], none, none⟩] := by decide
 
-example : NoDupKinds [⟨.info2, [1], some [0, 0, 16, 0]⟩, ⟨.pwSalt, [2], none⟩, ⟨.info, [3], none⟩] := by
+/-- **pa_v1_order_dependent.** before the second repair the etype used depended on the order: asked for
+    etype 18, a PA-ETYPE-INFO naming 17 followed by a PA-ETYPE-INFO2 naming 18 left 17 in use, the other
+    order did not (defect fixed in /repo) -/
+theorem pa_v1_order_dependent :
+    (Impl.select_v1 18 [⟨.info, [2], none, some 17⟩, ⟨.info2, [1], none, some 18⟩]).etype = some 17 ∧
+    (Impl.select_v1 18 [⟨.info2, [1], none, some 18⟩, ⟨.info, [2], none, some 17⟩]).etype = none ∧
+    (Impl.select [⟨.info, [2], none, some 17⟩, ⟨.info2, [1], none, some 18⟩]).etype = some 18 := by decide
+
+/-- **pa_etype_of_winner.** the etype used is the one the hint of highest precedence names (none when only
+    a PA-PW-SALT is present): never that of a hint that lost -/
+theorem pa_etype_of_winner (hs : List Hint) (h : NoDupKinds hs) :
+    (Impl.select hs).etype =
+      match hs.find? (·.kind = .info2), hs.find? (·.kind = .info) with
+      | some w, _ => w.etype
+      | none, some w => w.etype
+      | none, none => none := by
+  rw [pa_precedence hs h]
+  unfold Spec.select
+  cases h2 : hs.find? (·.kind = .info2) with
+  | some w => simp
+  | none =>
+    cases h1 : hs.find? (·.kind = .info) with
+    | some w => simp
+    | none => cases hs.find? (·.kind = .pwSalt) <;> simp
+
+/-- **pa_salt_absent_is_default.** a winning hint without a salt selects the default salt (the empty
+    selection), whatever salts the hints of lower precedence carry -/
+theorem pa_salt_of_winner (hs : List Hint) (h : NoDupKinds hs) (w : Hint)
+    (hw : hs.find? (·.kind = .info2) = some w) : (Impl.select hs).salt = w.salt := by
+  rw [pa_precedence hs h]
+  unfold Spec.select
+  rw [hw]
+
+example : NoDupKinds [⟨.info2, [1], some [0, 0, 16, 0], some 18⟩, ⟨.pwSalt, [2], none, none⟩, ⟨.info, [3], none, some 18⟩] := by
   unfold NoDupKinds; decide
 
 /-! ## des3 random-to-key -/
